@@ -2,7 +2,8 @@
 item lists of unbounded symbolic length (no unrolling), plus _evaluate_task_retry."""
 import z3
 
-from orquesta import conducting, statuses as st
+from orquesta import conducting
+from contracts import specconst as st
 from orquesta.expressions import base as expr_base
 
 from pyvc import seqlib, sym as S
